@@ -141,6 +141,10 @@ impl TrackAttributes<HAttrs, f32> for HAttrs {
 #[derive(Clone, Debug, Default, PartialEq)]
 pub struct HMetric {
     pub opt_calls: u32,
+    /// post-processing of the results of ONE track comparison: 0 = keep everything, 1 = keep only the closest
+    /// observation pairs (those whose attribute distance equals the smallest one of the comparison) - a hook that
+    /// looks at the vector as a whole, so its unit (one candidate against one stored track) matters
+    pub post: u8,
 }
 
 /// pairs whose attribute difference exceeds this yield no metric value at all
@@ -160,6 +164,15 @@ impl ObservationMetric<HAttrs, f32> for HMetric {
             _ => None,
         };
         Some((am, fd))
+    }
+
+    fn postprocess_distances(&self, unfiltered: Vec<similari::track::ObservationMetricOk<f32>>) -> Vec<similari::track::ObservationMetricOk<f32>> {
+        if self.post == 0 {
+            return unfiltered;
+        }
+        let key = |e: &similari::track::ObservationMetricOk<f32>| e.attribute_metric.unwrap_or(f32::INFINITY);
+        let m = unfiltered.iter().map(key).fold(f32::INFINITY, f32::min);
+        unfiltered.into_iter().filter(|e| key(e) == m).collect()
     }
 
     fn optimize(
